@@ -1,14 +1,21 @@
 import Cfdm.Lemmas.Geometry
+import Cfdm.Lemmas.GeometryWidth
+import Cfdm.Lemmas.GeometryWrite
+import Cfdm.Lemmas.GeometryOps
 /-
 C14 — geometry cells are decoded and encoded as CF chapter 7.5 defines.
-Property theorems only.  `partIndex true` / `wPartNodeCount` are the code after the
-proposed patches (fixes/C14-*.patch); the code as it stands (`partIndex false`,
-`wPartNodeCountOld`) is refuted by the `…_counterexample` theorems.
+Property theorems only.  `partIndex true` / `wPartNodeCount` are the code at /repo HEAD
+(the three findings of the first round were repaired by commits 6288525, fe4e445,
+99956cc); the code as it was (`partIndex false`, `wPartNodeCountOld`) is refuted by the
+`…_old_…_counterexample` theorems.  In the section on several fields per write,
+`writeAll true` is the writer with the repair proposed in
+fixes/C14-write-node-variable-reused-with-other-cells.patch and `writeAll false` the
+writer as it stands (refuted by `C14_multi_old_counterexample`).
 -/
 namespace Cfdm.Props.C14
 open Cfdm.Geometry
 
-/-- The part→cell assignment loop of `_parse_geometry` (with `i = k + 1`) gives
+/-- The part→cell assignment loop of `_parse_geometry` (`i = k + 1`) gives
 every part the cell that CF 7.5 gives it — the number of cumulative cell ends
 not beyond the part's first node — for ALL `node_count` / `part_node_count`
 vectors of a consistent container (every count ≥ 1, the parts group into
@@ -32,7 +39,7 @@ theorem C14_assign_of_ends (nc pnc : List Nat) (h : Aligned nc pnc) :
 example : Aligned [5, 3, 4, 2] [2, 3, 3, 4, 2] := by
   refine ⟨by decide, by decide, by decide, by decide⟩
 
-/-- The code as it stands (`i += k + 1`) is wrong from the third cell on: the
+/-- The code before commit 6288525 (`i += k + 1`) was wrong from the third cell on: the
 parts of cells 2 and 3 are never visited, keep their node counts as cell
 numbers, and the decoded bounds have the last two cells swapped. -/
 theorem C14_old_assign_counterexample :
@@ -130,7 +137,7 @@ example : coordShape none (some (shape3 (padSpec [[[1, 2], [3]], [[4]], [[5, 6, 
 
 /-- Writer: from the padded bounds of ANY well-formed geometry the node
 variable is the nodes in file order, `node_count` the nodes per cell, and
-`part_node_count` (patched) the nodes per part without padding parts; it is
+`part_node_count` the nodes per part without padding parts; it is
 left out exactly when no cell has a second part and there is no interior ring. -/
 theorem C14_write {α} (cs : Cells α) (h : WF cs) (hasRing : Bool) :
     wNodes (padSpec cs) = nodesOf cs
@@ -147,7 +154,7 @@ example : wPartNodeCount (padSpec [[[0, 1, 2]], [[3, 4]]]) true = some [3, 2] :=
 theorem C14_write_ring (rs : List (List Int)) : wRing (padRows rs) = rs.flatten :=
   wRing_padRows rs
 
-/-- The code as it stands (`np.trim_zeros`) leaves a zero inside
+/-- The code before commit fe4e445 (`np.trim_zeros`) left a zero inside
 `part_node_count` when a cell other than the last has fewer parts than the
 widest cell; the written vector then disagrees with Σ = number of nodes / the
 ring variable's length, and CF's decoder does not get the cells back. -/
@@ -204,7 +211,7 @@ theorem C14_spec_decode_encode {α} (cs : Cells α) (h : WF cs) :
   exact range_map_pickLabel cs
 
 /-- Encode then decode is the identity: from the variables `cfdm.write`
-(patched) creates for the padded bounds of any well-formed geometry, the
+creates for the padded bounds of any well-formed geometry, the
 independent CF 7.5 decoder recovers exactly the cells, and `cfdm.read` presents
 exactly the bounds that were written. -/
 theorem C14_encode_decode {α} (cs : Cells α) (h : WF cs) (hasRing : Bool) :
@@ -225,5 +232,366 @@ theorem C14_encode_decode {α} (cs : Cells α) (h : WF cs) (hasRing : Bool) :
 
 example : specDecode [3, 5] [3, 2, 3] [10, 11, 12, 13, 14, 15, 16, 17]
     = [[[10, 11, 12]], [[13, 14], [15, 16, 17]]] := by decide
+
+/-! ## The storage type of the count variables -/
+section width
+open Cfdm.GeometryWidth
+
+/-- CF does not prescribe the netCDF type of the count variables.  Whatever the
+widths `wn`, `wp` and signedness of the types `node_count` and `part_node_count`
+are stored in, the loop of `_parse_geometry` — every stored count converted to
+an unbounded integer before it is added to the running node total — assigns the
+parts as CF 7.5 does, for every consistent container whose counts are what the
+variables hold. -/
+theorem C14_assign_any_storage_width {wn wp : Nat} (sn sp : Bool) (nc : List (BitVec wn)) (pnc : List (BitVec wp))
+    (ncN pncN : List Nat) (hn : nc.map (storedVal sn) = ncN.map (fun (p : Nat) => (p : Int)))
+    (hp : pnc.map (storedVal sp) = pncN.map (fun (p : Nat) => (p : Int))) (h : Consistent ncN pncN) :
+    partIndexStored sn sp nc pnc = specAssign ncN pncN := by
+  unfold partIndexStored
+  rw [hn, hp, partIndexZ_ofNat]
+  exact C14_assign ncN pncN h
+
+/-- Byte counts 100 and 90 in one cell of 190 nodes. -/
+example : partIndexStored (wn := 32) (wp := 8) true true [3#32, 190#32, 4#32] [3#8, 100#8, 90#8, 4#8]
+    = [0, 1, 1, 2] := by decide
+example : [3#32, 190#32, 4#32].map (storedVal true) = [3, 190, 4].map (fun (p : Nat) => (p : Int)) := by decide
+example : Consistent [3, 190, 4] [3, 100, 90, 4] :=
+  ⟨[[3], [100, 90], [4]], by decide, by decide, by decide, by decide⟩
+
+/-- Keeping the running total in the storage type of `part_node_count` is wrong:
+with signed bytes 100 + 90 wraps to -66, the cell of 190 nodes is never closed
+and every later part is attached to it (unsigned bytes: 200 + 100 wraps to 44). -/
+theorem C14_storage_accumulator_counterexample :
+    partIndexW (wn := 32) (wp := 8) true true [3#32, 190#32, 4#32] [3#8, 100#8, 90#8, 4#8] = [0, 1, 1, 1]
+    ∧ partIndexStored (wn := 32) (wp := 8) true true [3#32, 190#32, 4#32] [3#8, 100#8, 90#8, 4#8] = [0, 1, 1, 2]
+    ∧ partIndexW (wn := 32) (wp := 8) true false [3#32, 300#32, 4#32] [3#8, 200#8, 100#8, 4#8] = [0, 1, 1, 1]
+    ∧ partIndexStored (wn := 32) (wp := 8) true false [3#32, 300#32, 4#32] [3#8, 200#8, 100#8, 4#8] = [0, 1, 1, 2] := by
+  decide
+
+/-- … and it is wrong ONLY then: for a consistent container in which no cell has
+more nodes than the storage type of `part_node_count` can hold, the loop that
+keeps the running total in that type assigns the parts exactly as CF 7.5 does
+(the hypothesis is decidable; the counter-example above shows that it cannot be
+dropped). -/
+theorem C14_storage_accumulator_ok_when_fits {wn wp : Nat} (sn sp : Bool) (nc : List (BitVec wn))
+    (pnc : List (BitVec wp)) (g : List (List Nat)) (hne : ∀ c ∈ g, c ≠ []) (hpos : ∀ c ∈ g, ∀ x ∈ c, 0 < x)
+    (hn : nc.map (storedVal sn) = (g.map List.sum).map (fun (p : Nat) => (p : Int)))
+    (hp : pnc.map (storedVal sp) = g.flatten.map (fun (p : Nat) => (p : Int)))
+    (hfit : ∀ c ∈ g, c.sum ≤ maxStored wp sp) :
+    partIndexW sn sp nc pnc = specAssign (g.map List.sum) g.flatten := by
+  rw [partIndexW_of_fits sn sp nc pnc g hne hpos hn hp hfit, specAssign_labels g hne hpos]
+
+example : (∀ c ∈ [[3], [100, 27], [4]], c.sum ≤ maxStored 8 true) := by decide
+example : ¬ (∀ c ∈ [[3], [100, 90], [4]], c.sum ≤ maxStored 8 true) := by decide
+example : partIndexW (wn := 32) (wp := 8) true true [3#32, 127#32, 4#32] [3#8, 100#8, 27#8, 4#8] = [0, 1, 1, 2] := by
+  decide
+
+end width
+
+/-! ## Several geometry fields in one `cfdm.write` -/
+section multi
+open Cfdm.GeometryWrite
+
+/-- Every variable the writer shares is shared on equal content AND equal
+dimensions: whatever the state of the dataset, `_already_in_file` followed by
+creation returns a variable that holds exactly the requested content on exactly
+the requested dimensions, and nothing written before is changed. -/
+theorem C14_share_only_equal (st : Cfdm.GeometryWrite.St) (c : Content) (ds : List Nat) :
+    HasVar (findOrAdd st c ds).1 (findOrAdd st c ds).2 c ds ∧ Ext st (findOrAdd st c ds).1 :=
+  ⟨(findOrAdd_spec st c ds).2.1, (findOrAdd_spec st c ds).1⟩
+
+/-- ONE `cfdm.write` of ANY list of geometry fields (the writer with the repair
+proposed for the open finding `write-node-variable-reused-with-other-cells`):
+if the write does not raise, the geometry container that each field's data
+variable references names, in the final dataset, a node coordinate variable
+holding that coordinate's nodes in file order, a `node_count` variable on the
+field's own cell dimension holding its nodes per cell, and — exactly when a
+cell has a second part or there are interior rings — a `part_node_count`
+variable holding its nodes per part and an `interior_ring` variable holding its
+flags on the same part dimension: the CF 7.5 encoding of the field's OWN cells,
+whatever the other fields are and whatever variables they share with it. -/
+theorem C14_multi_written_containers (fs : List FieldIn) (hk : ∀ f ∈ fs, SameKind f) (st' : Cfdm.GeometryWrite.St)
+    (outs : List FieldOut) (h : writeAll true Cfdm.GeometryWrite.St.empty fs = some (st', outs)) :
+    AllFields st' fs outs :=
+  (writeAll_spec fs Cfdm.GeometryWrite.St.empty inv_empty hk st' outs h).2.2
+
+/-- Two fields share a `node_count` variable ONLY IF their cell axes are on the
+same netCDF dimension AND their node counts are equal (likewise, by the same
+argument, for part_node_count and interior_ring on the part dimension). -/
+theorem C14_multi_count_shared_only_if {st : Cfdm.GeometryWrite.St} {cell1 cell2 : Nat} {cont1 cont2 : Container} {c1 c2 : CoordIn}
+    (h1 : ContainerEncodes st cell1 cont1 c1) (h2 : ContainerEncodes st cell2 cont2 c2)
+    (hs : cont1.nodeCount = cont2.nodeCount) :
+    cell1 = cell2 ∧ nodeCount c1.cells = nodeCount c2.cells := by
+  have a := h1.2.1
+  have b := h2.2.1
+  rw [hs] at a
+  obtain ⟨hc, hd⟩ := a.inj b
+  constructor
+  · simpa using hd
+  · simpa using hc
+
+/-- CF's decoder applied to the written container recovers the field's own cells
+(and interior-ring flags). -/
+theorem C14_multi_decode {st : Cfdm.GeometryWrite.St} {cell : Nat} {cont : Container} {c : CoordIn}
+    (h : ContainerEncodes st cell cont c) (hwf : WF c.cells) :
+    (∃ nv ∈ cont.nodes, decodeWritten st cont nv = some c.cells)
+    ∧ (∀ rs, c.ring = some rs → rs.map List.length = c.cells.map List.length →
+        decodeWrittenRing st cont = some (some rs))
+    ∧ (c.ring = none → decodeWrittenRing st cont = some none) := by
+  obtain ⟨⟨nv, hnv, nd, hn⟩, hnc, hparts⟩ := h
+  have hvn : varNodes st nv = some (nodesOf c.cells) := by
+    unfold varNodes; unfold HasVar at hn; rw [hn]
+  have hvc : varCounts st cont.nodeCount = some (nodeCount c.cells) := by
+    unfold varCounts; unfold HasVar at hnc; rw [hnc]
+  unfold PartsOf at hparts
+  by_cases hcond : (maxLen c.cells == 1 && c.ring.isNone) = true
+  · rw [if_pos hcond] at hparts
+    have hcc : containerCounts st cont = some (nodeCount c.cells, partNodeCount c.cells) := by
+      unfold containerCounts
+      rw [hvc, hparts.1]
+      simp only [Bool.and_eq_true, beq_iff_eq] at hcond
+      have h1 := length_eq_one_of_maxLen c.cells hwf hcond.1
+      have : partNodeCount c.cells = nodeCount c.cells := by
+        rw [eq_map_singleton c.cells h1]
+        exact pnc_eq_nc_of_single c.cells.flatten
+      rw [this]
+    refine ⟨⟨nv, hnv, ?_⟩, ?_, ?_⟩
+    · unfold decodeWritten
+      rw [hvn, hcc]
+      simp only []
+      rw [C14_spec_decode_encode c.cells hwf]
+    · intro rs hrs _
+      simp only [Bool.and_eq_true] at hcond
+      rw [hrs] at hcond
+      cases hcond.2
+    · intro _
+      unfold decodeWrittenRing
+      rw [hparts.2]
+  · rw [if_neg hcond] at hparts
+    obtain ⟨pv, pd, hpv, hpvar, hrest⟩ := hparts
+    have hcc : containerCounts st cont = some (nodeCount c.cells, partNodeCount c.cells) := by
+      unfold containerCounts
+      rw [hvc, hpv]
+      simp only []
+      unfold varCounts; unfold HasVar at hpvar; rw [hpvar]
+      rfl
+    refine ⟨⟨nv, hnv, ?_⟩, ?_, ?_⟩
+    · unfold decodeWritten
+      rw [hvn, hcc]
+      simp only []
+      rw [C14_spec_decode_encode c.cells hwf]
+    · intro rs hrs hlen
+      rw [hrs] at hrest
+      simp only [] at hrest
+      obtain ⟨rv, hrv, hrvar⟩ := hrest
+      unfold decodeWrittenRing
+      rw [hrv]
+      simp only []
+      have : varFlags st rv = some rs.flatten := by
+        unfold varFlags; unfold HasVar at hrvar; rw [hrvar]
+      rw [this, hcc]
+      simp only []
+      rw [(C14_interior_ring c.cells hwf rs hlen).2]
+    · intro hrn
+      rw [hrn] at hrest
+      simp only [] at hrest
+      unfold decodeWrittenRing
+      rw [hrest]
+
+/-- Two fields on one cell dimension whose x nodes hold the same values, divided
+into cells [2 nodes, 4 nodes] and [4 nodes, 2 nodes]. -/
+def twoPartitions : List FieldIn :=
+  [⟨0, 1, [⟨0, [[[0, 1]], [[2, 3, 4, 5]]], none, none, 7⟩], 0⟩,
+   ⟨0, 1, [⟨0, [[[0, 1, 2, 3]], [[4, 5]]], none, none, 7⟩], 0⟩]
+
+example : ∀ f ∈ twoPartitions, SameKind f := by decide
+example : (writeAll true Cfdm.GeometryWrite.St.empty twoPartitions).isSome = true := by decide
+
+/-- The writer as it stands re-uses the node coordinate variable of the first
+field together with its node_count: the second field's container decodes to
+the FIRST field's cells.  With the repair it decodes to its own. -/
+theorem C14_multi_old_counterexample :
+    ((writeAll false Cfdm.GeometryWrite.St.empty twoPartitions).map (fun r =>
+        r.2.map (fun o => decodeWritten r.1 o.container (o.container.nodes.headD 0))))
+      = some [some [[[0, 1]], [[2, 3, 4, 5]]], some [[[0, 1]], [[2, 3, 4, 5]]]]
+    ∧ ((writeAll true Cfdm.GeometryWrite.St.empty twoPartitions).map (fun r =>
+        r.2.map (fun o => decodeWritten r.1 o.container (o.container.nodes.headD 0))))
+      = some [some [[[0, 1]], [[2, 3, 4, 5]]], some [[[0, 1, 2, 3]], [[4, 5]]]] := by
+  constructor <;> decide
+
+/-- The hypothesis `SameKind` cannot be dropped: a field whose x is one part of
+two nodes and whose y is two parts of one node (equal node counts) gets a
+container with y's part_node_count, from which x does not decode to x's cells. -/
+theorem C14_multi_samekind_needed :
+    let f : FieldIn := ⟨0, 1, [⟨0, [[[0, 1]]], none, none, 7⟩, ⟨1, [[[1000], [1001]]], none, none, 7⟩], 0⟩
+    ¬ SameKind f
+    ∧ ((writeAll true Cfdm.GeometryWrite.St.empty [f]).map (fun r =>
+        r.2.map (fun o => decodeWritten r.1 o.container (o.container.nodes.headD 0))))
+      = some [some [[[0], [1]]]] := by
+  decide
+
+end multi
+
+/-! ## Operations that keep the part and node dimensions -/
+section ops
+open Cfdm.GeometryOps
+
+/-- Subspacing a geometry coordinate along the cell axis (any resolved index
+list: slices with either sign of step, integer lists, repetitions) presents
+exactly the selected cells, in the selected order, with the trailing part and
+node sizes unchanged, and the interior-ring flags of the same cells; the nodes
+of a cell are never reversed. -/
+theorem C14_subspace {α} (cs : Cells α) (rs : Option (List (List Int))) (mp mn : Nat) (sel : List Nat)
+    (hs : ∀ i ∈ sel, i < cs.length) (hr : ∀ r, rs = some r → r.length = cs.length) :
+    subspace sel (padW mp mn cs) (rs.map (padRowsW mp))
+      = (padW mp mn (takeRows sel cs []), rs.map (fun r => padRowsW mp (takeRows sel r []))) := by
+  unfold subspace padW
+  congr 1
+  · exact takeRows_map _ cs [] [] sel hs
+  · cases rs with
+    | none => rfl
+    | some r =>
+      simp only [Option.map_some, padRowsW]
+      congr 1
+      exact takeRows_map _ r [] [] sel (by intro i hi; rw [hr r rfl]; exact hs i hi)
+
+example : (subspace [2, 0] (padW 2 3 [[[1, 2], [3]], [[4]], [[5, 6, 7]]]) none).1
+    = padW 2 3 [[[5, 6, 7]], [[1, 2], [3]]] := by decide
+
+/-- Writing what a subspace leaves behind: the bounds of the selected cells are
+still padded to the ORIGINAL largest part / node counts, and from them the
+writer produces the CF encoding of exactly the selected cells; CF's decoder
+recovers them. -/
+theorem C14_write_after_subspace {α} (cs : Cells α) (h : WF cs) (mp mn : Nat) (sel : List Nat)
+    (hs : ∀ i ∈ sel, i < cs.length) (hne : sel ≠ []) (hmp : ∀ c ∈ cs, c.length ≤ mp) (hasRing : Bool) :
+    let b := (subspace sel (padW mp mn cs) none).1
+    let cs' := takeRows sel cs []
+    wNodes b = nodesOf cs' ∧ wNodeCount b = nodeCount cs'
+    ∧ wPartNodeCount b hasRing = (if mp == 1 && !hasRing then none else some (partNodeCount cs'))
+    ∧ specDecode (wNodeCount b) ((wPartNodeCount b hasRing).getD (wNodeCount b)) (wNodes b) = cs' := by
+  intro b cs'
+  have hb : b = padW mp mn cs' := by
+    have := C14_subspace cs none mp mn sel hs (by intro r hr; cases hr)
+    simp only [Option.map_none] at this
+    exact congrArg Prod.fst this
+  have hwf : WF cs' := wf_takeRows cs h sel hs
+  have hne' : cs' ≠ [] := by
+    cases sel with
+    | nil => exact absurd rfl hne
+    | cons i is => simp [cs', takeRows]
+  have hmp' : ∀ c ∈ cs', c.length ≤ mp := fun c hc => hmp c (mem_takeRows cs [] sel hs c hc)
+  have h1 : wNodes b = nodesOf cs' := by rw [hb]; exact wNodes_padW mp mn cs'
+  have h2 : wNodeCount b = nodeCount cs' := by rw [hb]; exact wNodeCount_padW mp mn cs'
+  have h3 : wPartNodeCount b hasRing = (if mp == 1 && !hasRing then none else some (partNodeCount cs')) := by
+    rw [hb]
+    simp only [wPartNodeCount, padW_dim1 mp mn cs' hne' hmp', pnc_padW mp mn cs' hwf]
+  refine ⟨h1, h2, h3, ?_⟩
+  rw [h1, h2, h3]
+  split
+  · rename_i hc
+    simp only [Bool.and_eq_true, beq_iff_eq] at hc
+    have hone : ∀ c ∈ cs', c.length = 1 := by
+      intro c hc'
+      have := hmp' c hc'
+      have : c.length ≠ 0 := fun h0 => (hwf c hc').1 (List.length_eq_zero_iff.mp h0)
+      omega
+    simp only [Option.getD_none]
+    have : nodeCount cs' = partNodeCount cs' := by
+      rw [eq_map_singleton cs' hone]
+      exact (pnc_eq_nc_of_single cs'.flatten).symm
+    have e := C14_spec_decode_encode cs' hwf
+    rw [← this] at e
+    exact e
+  · simp only [Option.getD_some]
+    exact C14_spec_decode_encode cs' hwf
+
+example : wPartNodeCount (subspace [1] (padW 2 3 [[[1, 2], [3]], [[4]], [[5, 6, 7]]]) none).1 false = some [1] := by
+  decide
+
+/-- The invariant of `insert_dimension` / `squeeze` / `transpose` on a geometry
+coordinate: whatever the sequence of operations, the bounds keep the
+coordinate's dimensions followed by the part and node dimensions, the interior
+ring the coordinate's dimensions followed by the part dimension — also when
+those trailing dimensions have size one (`squeeze` removes positions, not sizes)
+— and the shape inferred for a coordinate without representative values is the
+coordinate's shape. -/
+def GoodShapes (mp mn : Nat) (hasRing : Bool) (x : Shapes) : Prop :=
+  x.b = x.c ++ [mp, mn] ∧ x.r = (if hasRing then some (x.c ++ [mp]) else none)
+
+theorem applyOp_good (mp mn : Nat) (hasRing : Bool) (o : COp) (x : Shapes) (hx : GoodShapes mp mn hasRing x) :
+    GoodShapes mp mn hasRing (applyOp o x) := by
+  obtain ⟨hb, hr⟩ := hx
+  cases o with
+  | ins pos =>
+    simp only [applyOp]
+    have hle : (if pos ≤ x.c.length then pos else x.c.length) ≤ x.c.length := by split <;> omega
+    generalize (if pos ≤ x.c.length then pos else x.c.length) = q at hle
+    refine ⟨by rw [hb]; exact insAt_append q x.c _ hle, ?_⟩
+    rw [hr]
+    cases hasRing
+    · rfl
+    · simp only [if_true, Option.map_some]
+      rw [insAt_append q x.c _ hle]
+  | sq =>
+    simp only [applyOp]
+    have hax : ∀ a ∈ (List.range x.c.length).filter (fun i => x.c.getD i 0 == 1), a < 0 + x.c.length := by
+      intro a ha
+      have := List.mem_range.mp (List.mem_filter.mp ha).1
+      omega
+    refine ⟨by rw [hb]; exact dropAxesFrom_append _ _ x.c 0 hax, ?_⟩
+    rw [hr]
+    cases hasRing
+    · rfl
+    · simp only [if_true, Option.map_some]
+      congr 1
+      exact dropAxesFrom_append _ _ x.c 0 hax
+  | tr =>
+    simp only [applyOp]
+    have hax : ∀ a ∈ (List.range x.c.length).reverse, a < x.c.length := by
+      intro a ha
+      exact List.mem_range.mp (List.mem_reverse.mp ha)
+    constructor
+    · rw [hb]
+      have : (x.c ++ [mp, mn]).length - x.c.length = [mp, mn].length := by simp
+      rw [this]
+      exact permute_append _ x.c [mp, mn] hax
+    · rw [hr]
+      cases hasRing
+      · rfl
+      · simp only [if_true, Option.map_some]
+        congr 1
+        have : (x.c ++ [mp]).length - 1 = x.c.length := by simp
+        rw [this]
+        exact permute_append _ x.c [mp] hax
+
+theorem C14_ops_shapes (ops : List COp) (n mp mn : Nat) (hasRing : Bool) :
+    let x := applyOps ops (initShapes n mp mn hasRing)
+    GoodShapes mp mn hasRing x ∧ coordShape none (some x.b) true = some x.c := by
+  intro x
+  have hgood : ∀ (ops : List COp) (y : Shapes), GoodShapes mp mn hasRing y →
+      GoodShapes mp mn hasRing (applyOps ops y) := by
+    intro ops
+    induction ops with
+    | nil => intro y hy; exact hy
+    | cons o ops ih =>
+      intro y hy
+      exact ih (applyOp o y) (applyOp_good mp mn hasRing o y hy)
+  have h0 : GoodShapes mp mn hasRing (initShapes n mp mn hasRing) := by
+    constructor
+    · rfl
+    · cases hasRing <;> rfl
+  have hx := hgood ops _ h0
+  refine ⟨hx, ?_⟩
+  have hb : x.b = x.c ++ [mp, mn] := hx.1
+  simp only [coordShape, hb, Option.map_some, List.length_append, List.length_cons, List.length_nil]
+  simp
+
+/-- A polygon coordinate whose cells all have one part (part dimension of size
+one): inserting a dimension, transposing and squeezing keeps the size-one part
+dimension of the bounds and of the interior ring. -/
+example : applyOps [COp.ins 0, COp.tr, COp.sq] (initShapes 3 1 4 true) = ⟨[3], [3, 1, 4], some [3, 1]⟩ := by decide
+example : applyOps [COp.sq] (initShapes 1 1 1 true) = ⟨[], [1, 1], some [1]⟩ := by decide
+
+end ops
 
 end Cfdm.Props.C14
